@@ -1649,7 +1649,12 @@ impl<W: Write> Exec<W> {
             let as_ref = id.as_ref().to_vec();
             let js = guarded("serialize", panics, || serde_json::to_string(id).unwrap_or_default()).unwrap_or_default();
             let dbg = guarded("debug", panics, || format!("{:?}", id)).unwrap_or_default();
+            // the alternate flag and pretty-printing containers must not change what the id itself looks like
+            let dbg_alt = guarded("debug_alt", panics, || format!("{:#?}", id)).unwrap_or_default();
+            let dbg_vec_alt = guarded("debug_vec_alt", panics, || format!("{:#?}", vec![*id])).unwrap_or_default();
+            let dbg_opt = guarded("debug_opt", panics, || format!("{:?}", Some(*id))).unwrap_or_default();
             let disp = guarded("display", panics, || format!("{}", id)).unwrap_or_default();
+            let disp_str = guarded("to_string", panics, || id.to_string()).unwrap_or_default();
             let back = guarded("deserialize", panics, || serde_json::from_str::<NodeId>(&js).ok().map(|x| x.raw())).flatten();
             // the same JSON through the other serde_json entry points (owned value, reader, byte slice)
             let back_value = guarded("deserialize_value", panics, || {
@@ -1678,7 +1683,8 @@ impl<W: Write> Exec<W> {
             let mut h2 = DefaultHasher::new();
             NodeId::new(&raw).hash(&mut h2);
             json!({"raw": bytes_json(&raw), "as_ref": bytes_json(&as_ref), "json": chars_json(&js), "debug": chars_json(&dbg),
-                   "display": chars_json(&disp), "back": opt(back, |b| bytes_json(&b)),
+                   "debug_alt": chars_json(&dbg_alt), "debug_vec_alt": chars_json(&dbg_vec_alt), "debug_opt": chars_json(&dbg_opt),
+                   "display": chars_json(&disp), "to_string": chars_json(&disp_str), "back": opt(back, |b| bytes_json(&b)),
                    "back_value": opt(back_value, |b| bytes_json(&b)), "back_reader": opt(back_reader, |b| bytes_json(&b)),
                    "back_slice": opt(back_slice, |b| bytes_json(&b)), "key_doc": chars_json(&key_doc), "key_back": key_back,
                    "from_arr": bytes_json(&from_arr),
